@@ -10,7 +10,7 @@ from concurrent.futures import ThreadPoolExecutor
 
 sys.path.insert(0, VERIF)
 
-ALL_PROPS = ["C01", "C02", "C03", "C04", "C05", "C06", "C07", "C11", "C12", "C13", "C14", "C15", "C16", "C17", "C18", "C19", "C20"]
+ALL_PROPS = ["C01", "C02", "C03", "C04", "C05", "C06", "C07", "C10", "C11", "C12", "C13", "C14", "C15", "C16", "C17", "C18", "C19", "C20"]
 
 
 class Plan:
